@@ -4,6 +4,7 @@
 import BorshModel.Lemmas.MaxSize
 import BorshModel.Lemmas.Totality
 import BorshModel.Lemmas.MaxSound
+import BorshModel.Lemmas.MaxTight
 import BorshModel.Lemmas.Describes
 import BorshModel.Theorems.C01
 namespace Borsh
@@ -140,6 +141,31 @@ example :
     let c : Container := ⟨[65], [([65], .sequence 1 0 3 [66]),
        ([66], .enum 1 [(0, [78], [40]), (1, [83], [117])]), ([40], .primitive 0), ([117], .primitive 2)]⟩
     c.maxSerializedSize = .ok 10 ∧ sdec c 4 [65] [3, 1, 7, 7, 1, 8, 8, 1, 9, 9] = some [] := by
+  decide +kernel
+
+/-- **Tightness**: for a container whose definitions can all be read (`readable`: non-empty enums
+with distinct discriminants that fit the tag width, length ranges that fit the length width, untagged
+sequences of a single length — every container a Rust type generates is of this kind), the reported
+maximum is attained: some byte string of exactly that length is described by the schema. -/
+theorem C09_tight (c : Container) (hr : c.readable = true) (n : Nat)
+    (hm : c.maxSerializedSize = .ok n) : ∃ bs : Bytes, c.describes bs ∧ bs.length = n := by
+  have hs := C09_exact_when_ok c n hm
+  obtain ⟨bs, f, hl, hp⟩ := specMax_attained c hr _ c.decl [] n hs
+  exact ⟨bs, ⟨f, by simpa using hp f (Nat.le_refl f) []⟩, hl⟩
+
+/-- **The reported bound is the true maximum**: an upper bound on every described byte string
+(any container) that is attained (readable containers). -/
+theorem C09_is_maximum (c : Container) (hr : c.readable = true) (n : Nat)
+    (hm : c.maxSerializedSize = .ok n) :
+    (∀ bs : Bytes, c.describes bs → bs.length ≤ n) ∧ (∃ bs : Bytes, c.describes bs ∧ bs.length = n) :=
+  ⟨fun bs hd => C09_sound_container c n bs hm hd, C09_tight c hr n hm⟩
+
+/-- non-vacuity: the containers of `Vec<Option<u16>>`-like shapes are readable; an enum with a
+repeated discriminant is not -/
+example :
+    (Container.readable ⟨[65], [([65], .sequence 4 0 (2 ^ 32 - 1) [66]),
+       ([66], .enum 1 [(0, [78], [40]), (1, [83], [117])]), ([40], .primitive 0), ([117], .primitive 2)]⟩ = true) ∧
+    (Container.readable ⟨[66], [([66], .enum 1 [(0, [78], [40]), (0, [83], [117])])]⟩ = false) := by
   decide +kernel
 
 end Borsh
